@@ -133,7 +133,7 @@ fn ref_mm(b: &mut Board, depth: i32, ply: i32) -> i32 {
     best
 }
 // sparse positions: the reference quiescence is exhaustive, so little may be capturable
-const C11_ROOTS: [&str; 14] = [
+const C11_ROOTS: [&str; 22] = [
     "8/2p5/3p4/KP5r/1R3p1k/8/4P1P1/8 w - - 0 1",
     "6k1/5ppp/8/8/8/8/8/R3K3 w Q - 0 1",
     "7k/8/8/8/r7/1r6/8/5K2 w - - 0 1",
@@ -148,35 +148,50 @@ const C11_ROOTS: [&str; 14] = [
     "5rk1/6pp/8/8/8/8/1Q6/6K1 w - - 0 1",
     "k7/8/1K6/8/8/8/8/2Q5 w - - 0 1",
     "7k/8/6K1/8/8/8/8/5Q2 w - - 0 1",
+    "8/kP6/8/8/3K4/8/4pp2/8 w - - 0 1",
+    "6n1/7P/8/2k5/1N6/8/p2K4/8 w - - 0 1",
+    "8/8/8/8/7p/5k1K/5p2/8 w - - 0 1",
+    "4k3/8/8/8/8/8/1p6/R3K3 b Q - 0 1",
+    "r3k3/8/8/8/8/8/8/4K2R w Kq - 0 1",
+    "8/3k4/8/8/8/8/3K1R2/r7 w - - 96 50",
+    "8/8/8/3k4/8/8/3K1R2/8 b - - 98 50",
+    "8/8/8/3k4/8/8/3K1R2/8 w - - 97 50",
 ];
-/// C11: for depths 1..3 from an empty cache (at these depths a position probed at one node was never stored by another, so
-/// the cache is neutral) the recorded root score equals the reference minimax value, and the recorded move attains it
+/// C11: with result caching neutralised (this test runs on a copy in which the one transposition-table probe whose result
+/// alpha_beta uses is replaced by "nothing found": kx/splice.py, kind replay-nocache) the recorded root score equals the reference minimax value, and the recorded move attains it
+/// very sparse positions that are also searched one ply deeper (reductions and re-search rules only show from depth 4)
+const C11_DEEP: [&str; 4] = [
+    "8/6p1/8/8/r1k5/7b/8/2K5 w - - 0 1",
+    "3k4/8/8/8/1K6/6np/8/8 w - - 0 1",
+    "8/8/4P3/8/4B3/K3kP2/8/8 b - - 0 1",
+    "8/8/3k2P1/8/R7/8/K7/8 b - - 0 1",
+];
+fn c11_compare(fen: &str, depth: Depth) {
+    let root = Board::from_fen(fen);
+    if root.clone().get_legal_moves().is_empty() { return; }
+    clear();
+    let mut s = Search::new(&root, None);
+    s.start();
+    let mv = s.alpha_beta_start(&SimpleEvaluator, depth, Instant::now());
+    let got = i32::from(s.info.best_score.expect("completed iteration records a score"));
+    // the reference: the root itself has neither draw test nor check extension (alpha_beta_start); children at ply 1
+    let mut b = root.clone();
+    let mut want = i32::MIN;
+    let mut of_mv = i32::MIN;
+    for m in b.get_legal_moves() {
+        b.make_move(m);
+        let v = -ref_mm(&mut b, i32::from(depth) - 1, 1);
+        b.unmake_move();
+        if v > want { want = v; }
+        if m == mv { of_mv = v; }
+    }
+    assert!(got == want, "C11: {fen} depth {depth}: the search records {got}, the minimax value of the look-ahead game is {want}");
+    assert!(of_mv == want, "C11: {fen} depth {depth}: the move on record ({mv}) is worth {of_mv}, the best move is worth {want}");
+}
 #[test]
 fn c11_root_value_is_minimax() {
-    for fen in C11_ROOTS.iter() {
-        let root = Board::from_fen(fen);
-        if root.clone().get_legal_moves().is_empty() { continue; }
-        let max_depth = if std::env::var("VERIF_TIER").map(|t| t == "thorough").unwrap_or(false) { 4u8 } else { 3u8 };
-        for depth in 1..=max_depth {
-            clear();
-            let mut s = Search::new(&root, None);
-            s.start();
-            let mv = s.alpha_beta_start(&SimpleEvaluator, depth, Instant::now());
-            let got = i32::from(s.info.best_score.expect("completed iteration records a score"));
-            // the reference: the root itself has neither draw test nor check extension (alpha_beta_start); children at ply 1
-            let mut b = root.clone();
-            let mut want = i32::MIN;
-            let mut of_mv = i32::MIN;
-            for m in b.get_legal_moves() {
-                b.make_move(m);
-                let v = -ref_mm(&mut b, i32::from(depth) - 1, 1);
-                b.unmake_move();
-                if v > want { want = v; }
-                if m == mv { of_mv = v; }
-            }
-            assert!(got == want, "C11: {fen} depth {depth}: the search records {got}, the minimax value of the look-ahead game is {want}");
-            assert!(of_mv == want, "C11: {fen} depth {depth}: the move on record ({mv}) is worth {of_mv}, the best move is worth {want}");
-        }
-    }
+    let max_depth = if std::env::var("VERIF_TIER").map(|t| t == "thorough").unwrap_or(false) { 4u8 } else { 3u8 };
+    for fen in C11_ROOTS.iter() { for depth in 1..=max_depth { c11_compare(fen, depth); } }
+    for fen in C11_DEEP.iter() { for depth in 1..=(max_depth + 1) { c11_compare(fen, depth); } }
     clear();
 }
